@@ -99,6 +99,20 @@ impl UserDefinedDataWriter {
         self.publication_matched_status.current_count_change -= 1;
     }
 
+    /// Complete the pending wait_for_acknowledgments calls if every change is acknowledged by the
+    /// (remaining) matched reliable readers. To be called when a matched reader goes away.
+    pub fn notify_if_all_changes_acknowledged(&mut self) {
+        if self
+            .writer
+            .transport_writer
+            .is_change_acknowledged(self.writer.last_change_sequence_number)
+        {
+            for n in self.wait_for_acknowledgments_notification.drain(..) {
+                n.send(Ok(()));
+            }
+        }
+    }
+
     pub fn get_offered_deadline_missed_status(&mut self) -> OfferedDeadlineMissedStatus {
         let status = self.offered_deadline_missed_status.clone();
         self.offered_deadline_missed_status.total_count_change = 0;
